@@ -11,7 +11,8 @@ timing and what a real reactor holds are not decided.
 import ast
 
 from .. import effects
-from ..absint import FALSE, NONE, TOP, TRUE, DefaultDomain, Interp, State, exc, val
+from ..absint import FALSE, NONE, TOP, TRUE, Frame, Interp, State, exc, unbox_deep, val
+from ..objects import ObjectDomain
 from ..astutil import FUNC_TYPES, dotted, norm
 from ..loader import AnalysisError
 from .common import SPINNER, module_function, own_method
@@ -39,137 +40,131 @@ EXPLANATION = (
 )
 
 
-class _GuardDomain(DefaultDomain):
-    """The wrapper of not_reentrant over one boolean: "the guarded function is marked as running".
-    Whatever container keeps the mark (dict of booleans, set of functions, attribute), reads and
-    writes keyed by the guarded function are reads and writes of that boolean."""
+GUARDED = ("userfn", "guarded")
+THE_RESULT = ("sym", "the-result")
+GUARD_EXC = ("exc", "UserError")
+GA, GK = ("sym", "arg-1"), ("sym", "kw-1")
 
-    def __init__(self, fn_param):
-        self.fn = fn_param
 
-    def _flag(self, st):
-        return st.get("flag", FALSE)
+def _is_reentry(v):
+    return isinstance(v, tuple) and ((v[:1] == ("new",) and v[1] == "ReentryError") or v == ("exc", "ReentryError"))
 
-    def load_attr(self, chain, st, fr):
-        if len(chain) == 1 and chain[0] == self.fn:
-            return ("the-function",)
-        if len(chain) == 1 and not st.has(fr.local(chain[0])):
-            # a closure / default-argument container: its only content that matters is the mark
-            return ("marks", self._flag(st))
+
+class _GuardDomain(ObjectDomain):
+    """not_reentrant run as written: the decorator is applied to a user function whose behaviour per invocation is
+    scripted -- "value" returns, "raise" raises, "reenter" calls the wrapper again from inside and lets whatever that
+    does propagate, "reenter-twice" swallows a first ReentryError and calls the wrapper once more.  Whatever keeps the
+    mark (a dict shared through a default argument, a set, a closure variable, an object) is interpreted, not assumed."""
+
+    def __init__(self, classes, script):
+        super().__init__(classes, ctors={"ReentryError"}, oracle=self._oracle, log_cap=40, track=lambda d: d.split(".")[-1] == "mergeFunctionMetadata")
+        self.script = script
+
+    @staticmethod
+    def _oracle(n, pos, kw):
+        if n.split(".")[-1] == "mergeFunctionMetadata" and len(pos) == 2:
+            return [("val", pos[1])]   # twisted.python.util.mergeFunctionMetadata(f, g) returns g carrying f's metadata
         return None
 
-    def compare(self, op, left, right):
-        if isinstance(op, (ast.In, ast.NotIn)) and left == ("the-function",) and isinstance(right, tuple) and right[:1] == ("marks",):
-            present = right[1] == TRUE
-            return "T" if present == isinstance(op, ast.In) else "F"
-        return None
+    def apply(self, interp, fn, pos, kw, st, fr):
+        if fn != GUARDED:
+            return super().apply(interp, fn, pos, kw, st, fr)
+        n = st.get("ev.fn_calls", 0)
+        pos, kw = [unbox_deep(v, st) for v in pos], [(k, unbox_deep(v, st)) for k, v in kw]
+        st = st.set("ev.fn_calls", n + 1).set("ev.fn_args", st.get("ev.fn_args", ()) + ((tuple(pos), tuple(kw)),))
+        mode = self.script[min(n, len(self.script) - 1)]
+        if mode == "value":
+            return [val(THE_RESULT, st)]
+        if mode == "raise":
+            return [exc(GUARD_EXC, st)]
+        wrapper = st.get("ev.wrapper")
+        out = []
+        for r in super().apply(interp, wrapper, [GA], [("k", GK)], st, fr):
+            refused = r.kind == "exc" and _is_reentry(r.value)
+            s2 = r.state.set("ev.nested", r.state.get("ev.nested", ()) + ("refused" if refused else "admitted" if r.kind == "val" else f"raised {r.value!r}",))
+            if mode == "reenter" or not refused:
+                out.append(exc(r.value, s2) if r.kind == "exc" else val(("sym", "nested-result"), s2))
+                continue
+            for r2 in super().apply(interp, wrapper, [GA], [("k", GK)], s2, fr):
+                refused2 = r2.kind == "exc" and _is_reentry(r2.value)
+                s3 = r2.state.set("ev.nested", r2.state.get("ev.nested", ()) + ("refused" if refused2 else "admitted" if r2.kind == "val" else f"raised {r2.value!r}",))
+                out.append(exc(r2.value, s3) if r2.kind == "exc" else val(("sym", "nested-result"), s3))
+        return out
 
-    def subscript(self, base, idx, st, fr):
-        if isinstance(base, tuple) and base[:1] == ("marks",) and idx == ("the-function",):
-            return base[1]
-        return None
 
-    def store_subscript(self, target, value, st, fr, interp):
-        if dotted(target.slice) == self.fn:
-            t = self.truth(value)
-            return st.set("flag", TRUE if t == "T" else FALSE if t == "F" else ("bool",))
-        return st
-
-    def delete(self, interp, target, st, fr):
-        if isinstance(target, ast.Subscript) and dotted(target.slice) == self.fn:
-            return st.set("flag", FALSE)
-        return st
-
-    def call(self, interp, call, st, fr):
-        d = dotted(call.func)
-        if d == self.fn:
-            n = min(st.get("ev.calls", 0) + 1, 2)
-            s2 = st.set("ev.calls", n).set("ev.flag_at_call", self._flag(st))
-            return [val(("the-result",), s2), exc(("user-exception",), s2)]
-        if d == "ReentryError":
-            return [val(("reentry",), st)]
-        if isinstance(call.func, ast.Attribute) and call.args and dotted(call.args[0]) == self.fn:
-            m = call.func.attr
-            if m == "get":
-                return [val(self._flag(st), st)]
-            if m == "add":
-                return [val(NONE, st.set("flag", TRUE))]
-            if m in ("discard", "remove", "pop"):
-                return [val(NONE, st.set("flag", FALSE))]
-            if m == "setdefault":
-                return [val(self._flag(st), st)]
-        return [val(TOP, st)]
-
-    def raised_value(self, stmt, value, st, fr):
-        return value if isinstance(value, tuple) else ("raised", norm(stmt.exc)[:30])
-
-    def match(self, handler_type, excvalue, st):
-        # the guarded function may raise anything: only a catch-all handler is sure to see it
-        if handler_type is None:
-            return "yes"
-        names = [norm(t).split(".")[-1] for t in (handler_type.elts if isinstance(handler_type, ast.Tuple) else [handler_type])]
-        if "BaseException" in names:
-            return "yes"
-        if excvalue == ("reentry",):
-            return "yes" if {"ReentryError", "Exception"} & set(names) else "no"
-        return "maybe"
+def _guard_runs(ctx, nr, script, calls):
+    """Decorate the scripted user function, then call the wrapper ``calls`` times in a row; -> list of (outcomes, state)
+    where outcomes is one ("val"|"exc", value) per call."""
+    dom = _GuardDomain(ctx.classes, script)
+    dom.root_class = None
+    it = Interp(dom, max_depth=8)
+    it.round_cache = {}
+    holder = ast.parse("def _driver():\n    pass").body[0]
+    holder._module = nr._module
+    holder._parent = nr._module.tree
+    holder._class = None
+    fr = Frame(holder, 0, None, name="<driver>", is_method=False)
+    fn_param = nr.args.args[0].arg
+    runs = []
+    for r in it.inline(nr, {fn_param: GUARDED}, State(), fr, is_method=False):
+        if r.kind != "val" or not (isinstance(r.value, tuple) and r.value[:1] == ("func",)):
+            raise AnalysisError("anchor vanished: not_reentrant(function) does not evaluate to a wrapper function")
+        runs.append(((), r.state.set("ev.wrapper", r.value)))
+    for _ in range(calls):
+        nxt = []
+        for outcomes, s_ in runs:
+            for r in dom.apply(it, s_.get("ev.wrapper"), [GA], [("k", GK)], s_, fr):
+                nxt.append((outcomes + ((r.kind, unbox_deep(r.value, r.state)),), r.state))
+        runs = nxt
+    ctx.stats["states"] += it.steps
+    for f_ in it.functions:
+        ctx.analysed(f_)
+    return runs
 
 
 def check_reentrancy_guard(ctx):
     nr = module_function(ctx, SPINNER, "not_reentrant")
-    inner = [n for n in nr.body if isinstance(n, FUNC_TYPES)]
-    if len(inner) != 1:
-        raise AnalysisError("anchor vanished: not_reentrant no longer defines one inner wrapper")
-    dec = inner[0]
-    fn_param = nr.args.args[0].arg
     D = f"{SPINNER}:not_reentrant.decorated"
-    dom = _GuardDomain(fn_param)
+    args_ok = (((GA,), (("k", GK),)))
 
-    def go(flag):
-        it = Interp(dom, max_depth=3)
-        res = it.analyze(dec, {}, State([("flag", flag), ("ev.calls", 0)]), receiver=None, name="decorated")
-        ctx.stats["states"] += it.steps
-        ctx.analysed(dec)
-        return res
+    def describe(o):
+        return "returns " + repr(o[1]) if o[0] == "val" else "raises " + repr(o[1])
 
-    # first entry: the function runs exactly once, marked, and the mark is gone afterwards on every exit
-    res = go(FALSE)
-    problems = []
-    for r in res:
-        s_ = r.state
-        how = "returns" if r.kind == "val" else f"raises {r.value!r}"
-        if r.kind == "exc" and r.value == ("reentry",):
-            problems.append("a first call is refused")
-            continue
-        if s_.get("ev.calls", 0) != 1:
-            problems.append(f"the function is called {s_.get('ev.calls', 0)} times on a path that {how}")
-        elif s_.get("ev.flag_at_call") != TRUE:
-            problems.append("the function runs without being marked as running (a nested call would be admitted)")
-        if s_.get("flag") != FALSE:
-            problems.append(f"the mark is still set after the call {how}: every later call is refused")
-        if r.kind == "val" and r.value != ("the-result",):
-            problems.append("the function's result is not returned")
-    kinds = {r.kind for r in res}
-    if kinds != {"val", "exc"}:
-        problems.append("the function's exception does not propagate" if "exc" not in kinds else "no returning path")
-    ctx.check("R-REENTRANCY-FLAG", "first entry: marked while the function runs, unmarked after return and after an exception; result / exception passed through", dec,
-              not problems, "; ".join(sorted(set(problems))), examined=len(res), construct=f"{D}::first-entry")
-    # nested entry: refused, the function is not called, the outer call's mark survives
-    res = go(TRUE)
-    problems = []
-    for r in res:
-        s_ = r.state
-        if not (r.kind == "exc" and r.value == ("reentry",)):
-            problems.append("a nested call is not refused with ReentryError")
-        if s_.get("ev.calls", 0) != 0:
-            problems.append("the function runs although it is already running")
-        if s_.get("flag") != TRUE:
-            problems.append("refusing the nested call clears the mark of the call that is still running: the next nested call is admitted")
-    ctx.check("R-REENTRANCY-FLAG", "nested entry: ReentryError, function not called, the running call stays marked", dec,
-              bool(res) and not problems, "; ".join(sorted(set(problems))) or "no path explored", examined=len(res), construct=f"{D}::nested-entry")
-    ret = [r for r in nr.body if isinstance(r, ast.Return)]
-    ok = len(ret) == 1 and any(isinstance(n, ast.Name) and n.id == dec.name for n in ast.walk(ret[0]))
-    ctx.check("R-REENTRANCY-FLAG", "not_reentrant returns the wrapper", nr, ok, "the decorator does not return its guarding wrapper", construct=f"{SPINNER}:not_reentrant::returns-wrapper")
+    # first entry: the function runs once with the caller's arguments, its result / exception comes back, and a later call is admitted again
+    for mode, want in (("value", ("val", THE_RESULT)), ("raise", ("exc", GUARD_EXC))):
+        runs = _guard_runs(ctx, nr, [mode, "value"], 2)
+        problems = []
+        for outcomes, s_ in runs:
+            if _is_reentry(outcomes[0][1]) and outcomes[0][0] == "exc":
+                problems.append("a first call is refused")
+                continue
+            if outcomes[0] != want:
+                problems.append(f"the call {describe(outcomes[0])} when the function {describe(want)}")
+            if s_.get("ev.fn_args", ((),))[0] != args_ok:
+                problems.append(f"the function is called with {s_.get('ev.fn_args', ((),))[0]!r} instead of the caller's arguments")
+            if outcomes[1] != ("val", THE_RESULT) or s_.get("ev.fn_calls", 0) != 2:
+                problems.append(f"after a call in which the function {describe(want)} the next call {describe(outcomes[1])} (the function ran {s_.get('ev.fn_calls', 0)} times in all): the mark is still set")
+        ctx.check("R-REENTRANCY-FLAG", f"first entry, the function {describe(want)}: called once with the given arguments, outcome passed through, the next call is admitted", nr,
+                  bool(runs) and not problems, "; ".join(sorted(set(problems))) or "no path explored", examined=len(runs), construct=f"{D}::first-entry-{mode}")
+    # nested entry: refused with ReentryError, the function does not run again, the running call stays marked, and afterwards the next call is admitted
+    for mode, nested in (("reenter", ("refused",)), ("reenter-twice", ("refused", "refused"))):
+        runs = _guard_runs(ctx, nr, [mode, "value"], 2)
+        problems = []
+        for outcomes, s_ in runs:
+            got = s_.get("ev.nested", ())
+            if got[:1] != ("refused",):
+                problems.append(f"a call from inside the running function is not refused with ReentryError ({got[:1]})")
+            elif got != nested:
+                problems.append("refusing a nested call clears the mark of the call that is still running: the next nested call is admitted")
+            elif not (outcomes[0][0] == "exc" and _is_reentry(outcomes[0][1])):
+                problems.append(f"the ReentryError of the nested call does not propagate out of the function: the outer call {describe(outcomes[0])}")
+            elif outcomes[1] != ("val", THE_RESULT) or s_.get("ev.fn_calls", 0) != 2:
+                problems.append(f"after the refused nested call the next ordinary call {describe(outcomes[1])}")
+            rexc = [o[1] for o in outcomes if o[0] == "exc" and _is_reentry(o[1])]
+            if any(isinstance(v, tuple) and v[:1] == ("new",) and v[2] != (GUARDED,) for v in rexc):
+                problems.append("ReentryError does not name the guarded function")
+        ctx.check("R-REENTRANCY-FLAG", "nested entry: ReentryError(function), function not run again, the running call stays marked" + (" after a refused nested call" if mode == "reenter-twice" else ""), nr,
+                  bool(runs) and not problems, "; ".join(sorted(set(problems))) or "no path explored", examined=len(runs), construct=f"{D}::nested-entry" + ("-twice" if mode == "reenter-twice" else ""))
 
 
 # scenario: (rule, user function kind, script of reactor iterations, expected outcome, description)
